@@ -228,7 +228,24 @@ def run_c05(rep, tier, seed):
                 break
             rep.validated()
     numba.set_num_threads(maxt)
-    rep.part("replay", scenarios=len(scs), thread_counts=threads, stress_points=npt)
+    # single-precision inputs, more than 2**24 points in one bin: the default layer is still the exact number of points
+    nbig = 2 ** 24 + 4099
+    x32 = np.full(nbig, 0.25, dtype=np.float32)
+    x32[:1000] = 0.75
+    y32 = np.full(nbig, 0.5, dtype=np.float32)
+    rep.case(klass=("float32-many-points-one-bin",))
+    try:
+        pbig = osyris.histogram2d(osyris.Array(x32, unit="m"), osyris.Array(y32, unit="s"), resolution=2, xmin=0.0, xmax=1.0, ymin=0.0, ymax=1.0, plot=False)
+        cnt = np.ma.filled(pbig.layers[0]["data"], 0)
+        if int(cnt[1, 0]) != nbig - 1000 or int(cnt[1, 1]) != 1000 or float(cnt.sum()) != float(nbig):
+            rep.mismatch({"module": "HistMachine", "field": "float32-conservation"}, f"{nbig} float32 points ({nbig - 1000} in one bin): default layer {cnt.tolist()} does not count them all",
+                         case={"n": nbig}, module="hist")
+        else:
+            rep.validated()
+    except Exception as e:
+        rep.mismatch({"module": "HistMachine", "field": "histogram2d-raises"}, f"histogram2d on {nbig} float32 points raised {type(e).__name__}: {e}", case={"n": nbig}, module="hist")
+    del x32, y32
+    rep.part("replay", scenarios=len(scs), thread_counts=threads, stress_points=npt, float32_points_in_one_bin=nbig - 1000)
     rep.cov["rule"] = ("the schedule model is instantiated with the loop/update/rounding structure read from the kernel source and explored exhaustively (all partitions of 4 points over the workers, all interleavings); "
                        "TLC's exact binning tables (8 point sets x 3 y-patterns x 8 limit pairs x 3 resolutions) are replayed on the compiled kernel under each thread count and on histogram2d; automatic limits / log axes / "
                        "non-finite entries are checked against the grid the call reports; a stress run checks exact conservation; distinct = (part, scenario id, resolution, threads)")
